@@ -148,7 +148,19 @@ def make_body(nmax, steps, info):
                     model = {k: [] for k in PREDS}
                     answers, expected = [], []
                 elif opname in ('assert_fact_append', 'assert_fact_prepend'):
-                    yp.assert_fact(yp.atom(name), args, opname == 'assert_fact_append')
+                    call_args, helds = list(args), []
+                    if g('gf%d' % s) == 1:
+                        # the values arrive in variables that are bound at the time of the call
+                        call_args = []
+                        for x in args:
+                            v = yp.variable()
+                            it = iter(unify(v, x))
+                            next(it)
+                            helds.append(it)
+                            call_args.append(v)
+                    yp.assert_fact(yp.atom(name), call_args, opname == 'assert_fact_append')
+                    for it in helds:
+                        it.close()
                     row = tuple([p[1] for p in pat])
                     model[key] = model[key] + [row] if opname == 'assert_fact_append' else [row] + model[key]
                     answers, expected = [], []
